@@ -132,6 +132,8 @@ def discovery_scenario(r, length=None, small=False):
             events.append((t, (0, a, mc, peers_datagram(peers, a, es, mc))))
         else:
             events.append((t, (1, ev[1])))
+    events = [e for e in events if e[0] < end]
+    draws = draws * 16
     return dict(cfg=tuple(cfg), insts=[], draws=draws, events=events, end=end, rev=r.random() < 0.3, fuel=20000)
 
 
@@ -237,6 +239,8 @@ def server_scenario(r, length=None, small=False):
             events.append((t, (0, a, mc, peers[a].datagram(es, mc))))
         else:
             events.append((t, (1, ev[1])))
+    events = [e for e in events if e[0] < end]
+    draws = draws * 8 if draws and len(set(draws)) == 1 else draws
     return dict(cfg=tuple(cfg), insts=insts, draws=draws, events=events, end=end, rev=r.random() < 0.3, fuel=20000)
 
 
@@ -346,7 +350,7 @@ def lifecycle_scenario(r):
     insts = [(i + 1, conv.s_service(SERVICES[i]), []) for i in range(ninst)]
     d0 = r.choice([cfg[0], cfg[1]])
     drr = r.choice([cfg[2], cfg[3]])
-    draws = [d0] * 8 if d0 == drr else ([d0] * 8 if r.random() < 0.5 else [drr] * 8)
+    draws = [d0] * 64 if d0 == drr else ([d0] * 64 if r.random() < 0.5 else [drr] * 64)
     d0 = max(cfg[0], min(cfg[1], draws[0]))
     drr = max(cfg[2], min(cfg[3], draws[0]))
     raw = [(0, ("api", [17, i + 1])) for i in range(ninst)]
